@@ -528,6 +528,48 @@ def sweep_helpers(cases, st, res, tier, rnd, symbols_per_factory):
     return cases
 
 
+def _helper_call(factory, kw):
+    return FUNCS[factory](**kw)
+
+
+def _helper_snap(x):
+    return bytes(x) if isinstance(x, (bytes, bytearray)) else x
+
+
+def _helpers_sequential(args):
+    out = []
+    for factory, kw in args:
+        try:
+            out.append(('ok', _helper_snap(_helper_call(factory, kw))))
+        except Exception as ex:  # noqa
+            out.append(('exc', exc_class(ex)))
+    return out
+
+
+def concurrency_pass(cases, res, per_factory=64):
+    """the factories are pure: the same calls under a deterministic scheduler (8 threads, seeded, one thread at a time, switches
+    at function starts / calls inside segno) and under the operating system's threads must give the sequential results"""
+    import multiprocessing, symbols
+    seed = int(os.environ.get('VERIF_SEED', '1'))
+    sample = []
+    for f in ('wifi', 'mecard', 'vcard', 'geo', 'mailto', 'epc'):
+        sample += [c for c in cases if c.factory == f and c.exc is None][:per_factory]
+    args = [(c.factory, c.kw) for c in sample]
+    ctx = multiprocessing.get_context('fork')
+    with ctx.Pool(1) as pool:
+        ref = pool.apply(_helpers_sequential, (args,))
+    with ctx.Pool(1) as pool:
+        outs = pool.apply(symbols._scheduled_child, (args, seed, 8, 0.15, _helper_call, _helper_snap))
+    for how, got in (('deterministic scheduler, 8 threads', outs),):
+        for c, r, o in zip(sample, ref, got):
+            res.evaluations += 1
+            if r[0] == 'ok' and (o[0] != 'ok' or o[1] != r[1]):
+                res.violations.append(dict(property_field='c16', verdict='payload-under-concurrent-calls-differs-from-the-sequential-payload:' +
+                                           (repr(o[1])[:120] if o[0] == 'ok' else 'raised-' + str(o[1])), call=c.call() + f'  [{how}]',
+                                           replay=dict(c.replay(), schedule=dict(seed=seed)), known_id=None))
+    res.count('concurrency-pass:scheduled-calls', len(sample))
+
+
 def run_C16(tier, rnd, st, res):
     f = 1 if tier == 'quick' else 100
     sizes = dict(wifi=900 * f, mecard=800 * f, vcard=800 * f, geo=700 * f, mailto=700 * f, epc=1800 * f)
@@ -539,6 +581,7 @@ def run_C16(tier, rnd, st, res):
     cases += list(gen_mailto(rnd, sizes['mailto']))
     cases += list(gen_epc(rnd, sizes['epc']))
     cases = sweep_helpers(cases, st, res, tier, rnd, 50 if tier == 'quick' else 1000)
+    concurrency_pass(cases, res, 64 if tier == 'quick' else 400)
     if tier == 'quick' and (st.broken or res.corr_diffs) and not res.violations:
         # directed search (DESIGN §5 step 4): a proof obligation or the correspondence broke but no judged input failed:
         # run the larger generator through the judge
